@@ -7,9 +7,11 @@ removed: same length, same order, same Python names.  Literal defaults (int, flo
 signed numbers) are reproduced with the same value and a parameter is optional exactly when Python
 gives it such a default."
 
-C07 "a function annotated `-> None` has no results; any other annotation yields one result per result
-of the API, in order, each carrying the translated type; a function with neither annotation nor
-inferable return is emitted without results."
+C07 "a function annotated `-> None` has no results, an annotated tuple return yields one result per
+element in order, and any other annotation yields exactly one result carrying the translated type [per
+result of the API: one rendered result each, in order]; a function with neither annotation nor
+inferable return is emitted without results."  (`-> None` is `Spec.onlyNoneResult` of `Spec/Markers`:
+the result list is a single `None` result.  A `None` result among several is a result like any other.)
 
 Nothing here mentions the generator or its state: the renderer of types is a parameter
 (`ResultsRendered`), the naming helpers are those of L1 (`Model/Naming`, property C09).
